@@ -399,6 +399,72 @@ func c17Sort(c *fw.Ctx, r *rng.R, vals []any, kind int) {
 		}
 		if !sameMultiset(want, multiset(again)) {
 			c.Violate("second-sort-not-a-permutation", in()+" built via "+how, "a permutation of the original multiset", showVals17(again))
+			return
+		}
+		// history: modify the sorted list with a value of the same kind, then sort again
+		for round := 0; round < 2; round++ {
+			n := l.Count()
+			v := c17Values(r, kind, 1)[0]
+			var desc string
+			switch r.Intn(6) {
+			case 0:
+				i := r.Intn(n + 1)
+				if n > 0 && r.Chance(2, 3) {
+					i = r.Intn(n)
+				}
+				l.Insert(i, v)
+				desc = fmt.Sprintf("Insert(%d, %s)", i, showSlot(v))
+			case 1:
+				if n == 0 {
+					continue
+				}
+				i := r.Intn(n)
+				l.Replace(i, v)
+				desc = fmt.Sprintf("Replace(%d, %s)", i, showSlot(v))
+			case 2:
+				l.Add(v)
+				desc = fmt.Sprintf("Add(%s)", showSlot(v))
+			case 3:
+				if n < 2 {
+					continue
+				}
+				l.Reverse()
+				desc = "Reverse()"
+			case 4:
+				i := r.Intn(n + 2)
+				l.SetTF(fmt.Sprintf("#%d", i), v)
+				if i > n {
+					// padding added nils: out of Sort's domain, fill them
+					for j := n; j < i; j++ {
+						l.Replace(j, v)
+					}
+				}
+				desc = fmt.Sprintf("SetTF(#%d, %s)", i, showSlot(v))
+			default:
+				if n < 2 {
+					continue
+				}
+				l.Delete(r.Intn(n))
+				desc = "Delete(i)"
+			}
+			cur := top(l).([]any)
+			wantH := multiset(cur)
+			l.Sort()
+			c.Count("sort_after_mutation_calls")
+			res := top(l).([]any)
+			inH := func() string {
+				return in() + " built via " + how + ", then sorted, then " + desc + " giving " + showVals17(cur) + ", then Sort again"
+			}
+			if len(res) != len(cur) || !sameMultiset(wantH, multiset(res)) {
+				c.Violate("sort-after-mutation-not-a-permutation", inH(), "a permutation of "+showVals17(cur), showVals17(res))
+				return
+			}
+			for j := 1; j < len(res); j++ {
+				if lessAny(res[j], res[j-1], kind) {
+					c.Violate("sort-after-mutation-not-ordered", inH(), "non-decreasing order", showVals17(res))
+					return
+				}
+			}
 		}
 	})
 }
